@@ -73,7 +73,7 @@ def _tlc_job(job):
     wd = tlc.workdir(label)
     cfg = tlc.write_cfg(wd / "mc.cfg", constants=consts, invariants=invs)
     per = max(2, tlc.DEFAULT_WORKERS // 4) if label.startswith('C18_mc') or label == 'C18_sens0' else 1
-    return name, tlc.run(SPEC / module, cfg, label=label, timeout=3000, workers=per, extra=extra)
+    return name, tlc.run(SPEC / module, cfg, label=label, timeout=7200, workers=per, extra=extra)
 
 
 def run_jobs(jobs, par=None):
@@ -104,7 +104,7 @@ def mc_jobs(tier):
         clean.append(("Crdt Dev={} plain OR int element", "Crdt.tla",
                       crdt_consts(2, ["OR"], ["#1", "x"], 5), CRDT_INVS))
         clean.append(("Crdt Dev={} store 3 replicas", "Crdt.tla",
-                      crdt_consts(3, ["G", "OR"], ["x"], 6, store=True), CRDT_INVS))
+                      crdt_consts(3, ["G", "OR"], ["x"], 5, store=True), CRDT_INVS))
     sens = [
         ("store_adopts_remote_node_id", "Crdt.tla",      # deepest counterexample (7 actions): value/convergence
          crdt_consts(2, ["G"], ["x"], 7, store=True, dev=["store_adopts_remote_node_id"]), CRDT_INVS[:4]),
@@ -326,7 +326,7 @@ def validate(module, traces, label, chunk):
         cfg = tlc.write_cfg(d / "trace.cfg", spec="TSpec", constants=consts)
         f = d / "traces.json"
         f.write_text(json.dumps(parts[ix], separators=(",", ":")))
-        res = tlc.run(SPEC / module, cfg, label=lab, workers=1, timeout=3000, env={"TRACE_FILE": str(f)})
+        res = tlc.run(SPEC / module, cfg, label=lab, workers=1, timeout=7200, env={"TRACE_FILE": str(f)})
         f.unlink()
         return res
 
@@ -410,11 +410,18 @@ def run(tier, seed, replay=None):
                                                        kw.get("serialise", False))
             else:
                 pts, L, V, H, ids = CK.run_history(nn, events, **kw)
+        except CK.HarnessLimit as ex:
+            chk.note_drift(f"clock recorder: {ex}")
+            return
         except Exception as ex:   # the real objects raised on a legal history
             chk.violation(f"clock_exception:{type(ex).__name__}", f"{type(ex).__name__}: {ex}",
                           {"half": "clocks", "nn": nn, "events": events, "origin": origin})
             return
-        ctraces.append(CK.to_trace(tid, nn, events, pts, L, V, H, ids))
+        try:
+            ctraces.append(CK.to_trace(tid, nn, events, pts, L, V, H, ids))
+        except CK.HarnessLimit as ex:
+            chk.note_drift(f"clock recorder: {ex}")
+            return
         cmeta[tid] = {"half": "clocks", "origin": origin, "nn": nn, "events": [list(e) for e in events],
                       "readings_ns": pts,
                       "models": CK.describe_models(kw["models"]) if kw.get("models") else None,
@@ -429,7 +436,7 @@ def run(tier, seed, replay=None):
         tours = tour_consume(chk, c_t, results[len(j_mc):len(j_mc) + len(j_t)])
         if cache:
             open(cache, "w").write(json.dumps({"hists": hists, "tours": tours}))
-    cap = 2500 if q else 40000
+    cap = 2500 if q else 30000
     chosen = hists if len(hists) <= cap else rng.sample(hists, cap)
     chk.extra["clock_model_histories_total"] = len(hists)
     chk.extra["clock_model_histories_replayed"] = len(chosen)
@@ -439,7 +446,7 @@ def run(tier, seed, replay=None):
         clock_exec(nn, [(n, k, s) for (n, k, s, p) in h], "model", readings=[p * sc for (_, _, _, p) in h],
                    serialise=(i % 2 == 1))
         chk.replays += 1
-    n_rand = 400 if q else 12000
+    n_rand = 400 if q else 8000
     for i in range(n_rand):
         nn = 2 + i % 4
         ne = rng.randint(4, 14 if q else 30)
@@ -483,14 +490,14 @@ def run(tier, seed, replay=None):
                      "actions": acts}
         chk.impl_steps += len(acts)
 
-    capt = 1000 if q else 20000
+    capt = 1000 if q else 15000
     chosen_t = tours if len(tours) <= capt else rng.sample(tours, capt)
     chk.extra["crdt_tour_paths_replayed"] = len(chosen_t)
     for (kind, nr, store, el, acts, origin) in chosen_t:
         crdt_exec(kind, nr, store, el, acts, origin)
         chk.replays += 1
     chk.exhaustive = len(chosen) == len(hists) and len(chosen_t) == len(tours)
-    n_plain = 300 if q else 8000
+    n_plain = 300 if q else 6000
     for i in range(n_plain):
         kind = ("OR", "G", "PN", "LWW", "OR")[i % 5]
         nr = 2 + i % 4
@@ -498,7 +505,7 @@ def run(tier, seed, replay=None):
         if "#1" in el:
             acts = drop_colliding(kind, nr, el, acts)
         crdt_exec(kind, nr, False, el, acts, "random_plain")
-    n_store = 80 if q else 1500
+    n_store = 80 if q else 1000
     for i in range(n_store):
         kind = ("G", "OR", "PN")[i % 3]
         nr = 2 + i % 3
